@@ -3,19 +3,21 @@ C03 (algebra, shapes, rejection) and C04 (normal operators).
 
 Tie: coq/model/Linop.v is a hand model of sigpy/linop.py; every run serialises the object graphs the
 implementation builds (A, A.H, A.N) and compares them EXACTLY with `adj` / `normal` / `shapes`
-evaluated in Coq, and compares `den` (exact on Gaussian integers when the tree has only
-rearrangement / multiply / matmul leaves, PrimFloat with tolerance when it contains
-library-backed leaves, whose dense matrices are then passed in as data).
+evaluated in Coq, and compares `den` on values: exact on Gaussian integers when the tree has only
+rearrangement / multiply / matmul leaves (and when its only library-backed leaves are convolutions);
+PrimFloat with tolerance when it contains other library-backed leaves.  Library-backed leaves (FFT, NUFFT,
+interpolation, wavelets, convolution) are denoted by the STANDARD ORACLE `orc_std` (coq/model/OpaqueStd.v: the
+function models of C05-C08, C10 with the classes' own argument passing — the oracle the theorems of Prop_C01 /
+C03 / C04 are about), instantiated on floats from literal oracle tables (props/opaque_std.py,
+coq/run/RunOpaqueStd.v).  A dense matrix measured on the implementation is used ONLY for a leaf the validity
+predicate of the theorems rejects (counted as `opaque_leaves_via_dense_fallback`).
 """
 import json
 import numpy as np
 from vlib import core, coqlit as L, linser, lingen
+from props import opaque_std
 
-HEADER = """From Coq Require Import ZArith List Bool PrimFloat.
-From SV Require Import lib.Scalar lib.NdArray lib.FloatRun model.Linop run.RunLinop.
-Import ListNotations.
-Local Open Scope Z_scope.
-"""
+HEADER = opaque_std.HEADER          # run/RunLinop.v + run/RunOpaqueStd.v
 
 
 def chain(e):
@@ -32,9 +34,19 @@ def cvec(rng, shape, cplx=True):
     return lingen.gint(rng, shape, cplx, -4, 4).astype(np.complex128 if cplx else np.float64)
 
 
-def apply_case(S, T, A, x, y, exact):
-    """Coq expression: den T x == y"""
-    if exact:
+def apply_case(S, T, A, x, y, exact, sp=None, stats=None, rng=None):
+    """Coq expression: den T x == y.  Trees with library-backed leaves go through the standard oracle (function models);
+    `stats` collects how many trees / leaves did, and how many leaves needed the dense fallback."""
+    has_opaque = bool(opaque_std.walk_leaves(A))
+    if has_opaque and sp is not None:
+        expr, info = opaque_std.tree_expr(S, sp, T, A, x, y, rng)
+        if stats is not None:
+            stats["trees"] += 1
+            stats["leaves"] += info["n_leaves"]
+            stats["fallback"] += info["n_fallback"]
+            stats[{"exact-conv": "exact", "split": "split"}.get(info["mode"], "float")] += 1
+        return expr
+    if exact and not has_opaque:
         arrs, scals = S.env_G()
         return "chk_apply_G %s %s %s [] %s %s" % (T, arrs, scals, linser.gz_list(x), linser.gz_list(y))
     arrs, scals = S.env_F()
@@ -112,7 +124,8 @@ def tree_key(S, T):
 def run_linop(ctx, prop, prop_file, n_quick, n_thorough, want):
     """want: set of facets in {'adj','normal','shapes','apply','applyH','applyN','reject','dot','linear','pure','dense'}"""
     from tools import translate_all
-    tr_err = translate_all.run(strict=False, only=["linop_table", "block", "shapes"])
+    # "interp": the generated interpolation kernels are in the proof cone of the library-backed leaves (model/Interp.v, Nufft.v)
+    tr_err = translate_all.run(strict=False, only=["linop_table", "block", "shapes", "interp"])
     ctx.obligation("translate:sigpy/linop.py adjoint/normal table", not tr_err)
     if tr_err:
         ctx.notes.append("translator failed closed: %s" % tr_err)
@@ -123,10 +136,25 @@ def run_linop(ctx, prop, prop_file, n_quick, n_thorough, want):
     n = ctx.n(n_quick, n_thorough)
     cases, meta = [], []
     oracle_fail = {}
+    std_stats = {"trees": 0, "leaves": 0, "fallback": 0, "exact": 0, "float": 0, "split": 0}
+    std_idx = []                      # indices of the value cases whose library-backed leaves went through the function models
 
     def add(expr, cls, info):
         cases.append({"expr": expr})
         meta.append((cls, info))
+
+    def add_apply(cls, info, S, T, A, xin, yout):
+        before = std_stats["trees"]
+        try:
+            expr = apply_case(S, T, A, xin, yout, S.all_integer() and not S.opaque, sp, std_stats, rng)
+        except Exception as e:          # the oracle tables could not be measured: fail closed as a correspondence failure
+            msg = "".join(ch if ch.isalnum() or ch in " _-.,:[]<>=" else " " for ch in repr(e))[:200]
+            expr = "false (* environment of the library-backed leaves could not be built: %s *)" % msg
+            info = dict(info, env_error=chain(e))
+            std_stats["trees"] += 1
+        if std_stats["trees"] > before:
+            std_idx.append(len(cases))
+        add(expr, cls, info)
 
     def note_fail(cls, what, replay):
         if cls not in oracle_fail:
@@ -204,7 +232,7 @@ def run_linop(ctx, prop, prop_file, n_quick, n_thorough, want):
                               {"kind": "oracle", "tree": desc, "observed_shape": list(y.shape)})
             nop = len(S.opaque)
             if "apply" in want and not single:
-                add(apply_case(S, T, A, x, y, S.all_integer() and not S.opaque), "apply", info)
+                add_apply("apply", info, S, T, A, x, y)
             if "dense" in want and int(np.prod(A.ishape)) <= 40:
                 M = linser.dense(A)
                 R = ref_matrix(sp, A)
@@ -231,7 +259,7 @@ def run_linop(ctx, prop, prop_file, n_quick, n_thorough, want):
                 else:
                     z = np.asarray(AH(yv))
                     if "applyH" in want and not single:
-                        add(apply_case(S, TH, AH, yv, z, S.all_integer() and not S.opaque), "applyH", info)
+                        add_apply("applyH", info, S, TH, AH, yv, z)
                     if "dot" in want:
                         lhs, rhs = np.vdot(yv, y), np.vdot(z, x)     # <Ax,y> = sum Ax conj y = vdot(y, Ax)
                         scale = np.linalg.norm(y) * np.linalg.norm(yv) + np.linalg.norm(z) * np.linalg.norm(x) + 1e-30
@@ -260,7 +288,7 @@ def run_linop(ctx, prop, prop_file, n_quick, n_thorough, want):
                     note_fail("normal:" + top, "A.N x != A.H(A x)", {"kind": "oracle", "tree": desc, "term": T,
                                                                       "max_abs_diff": float(np.abs(w - w2).max()) if w.shape == w2.shape else None})
                 if "applyN" in want and not single:
-                    add(apply_case(S, TN, AN, x, w, S.all_integer() and not S.opaque), "applyN", info)
+                    add_apply("applyN", info, S, TN, AN, x, w)
             if "linear" in want:
                 a = complex(rng.randint(-3, 3), rng.randint(-3, 3))
                 x2 = cvec(rng, A.ishape, True)
@@ -300,8 +328,8 @@ def run_linop(ctx, prop, prop_file, n_quick, n_thorough, want):
     # ---- run the Coq side ----
     failing, corr_ok = [], True
     try:
-        if not ctx.make(["run/RunLinop.vo"]):
-            raise RuntimeError("run/RunLinop.vo does not build")
+        if not ctx.make(["run/RunLinop.vo"] + opaque_std.MAKE_TARGETS):
+            raise RuntimeError("run/RunLinop.vo / run/RunOpaqueStd.vo do not build")
         failing = L.run_bool_cases(ctx, prop.lower(), HEADER, cases, per_file=40, timeout=1500)
     except RuntimeError as e:
         corr_ok = False
@@ -314,6 +342,15 @@ def run_linop(ctx, prop, prop_file, n_quick, n_thorough, want):
         fail_cls.setdefault(meta[i][0], []).append(i)
     for cls, cnt in sorted(by_cls.items()):
         ctx.obligation("corr:%s (%d cases)" % (cls, cnt), corr_ok and cls not in fail_cls)
+    if std_idx:
+        fs = set(failing)
+        ctx.obligation("corr:library-backed leaves through their function models (%d trees)" % len(std_idx),
+                       corr_ok and not any(i in fs for i in std_idx))
+    ctx.coverage["opaque_trees_via_function_models"] = std_stats["trees"]
+    ctx.coverage["opaque_trees_exact_gaussian_integer"] = std_stats["exact"]
+    ctx.coverage["opaque_trees_split_for_cost"] = std_stats["split"]     # leaves vs function models + tree with dense leaves
+    ctx.coverage["opaque_leaves_via_function_models"] = std_stats["leaves"] - std_stats["fallback"]
+    ctx.coverage["opaque_leaves_via_dense_fallback"] = std_stats["fallback"]
     ctx.obligation("oracle:implementation satisfies %s on %d operators" % (prop, made), not oracle_fail)
     ctx.coverage["disagreements_model_vs_impl"] = len(failing)
     ctx.coverage["oracle_failures"] = len(oracle_fail)
@@ -337,6 +374,10 @@ def run_linop(ctx, prop, prop_file, n_quick, n_thorough, want):
     ctx.trusted += [
         "Coq 8.16.1 kernel + vm_compute (PrimFloat primitives only for running models)",
         "hand model coq/model/Linop.v of sigpy/linop.py, tied by this run's exact structural comparison (adj/normal/shapes) and value comparison",
-        "library-backed leaves (FFT, NUFFT, interpolation, wavelets, convolution) enter `den` as oracles; their dense matrices are measured on the implementation",
+        "library-backed leaves (FFT, NUFFT, interpolation, wavelets, convolution) enter `den` through the standard oracle orc_std "
+        "(coq/model/OpaqueStd.v: the function models of C05-C08 / C10 with the classes' argument passing), run on floats from oracle "
+        "tables: DFT twiddle factors (validated in Coq), Kaiser-Bessel values and numpy.sinh at the bit-exact arguments, numpy.pi, "
+        "PyWavelets' analysis / synthesis matrices measured on PyWavelets; a dense matrix measured on the implementation only for a "
+        "leaf the validity predicate rejects (coverage.opaque_leaves_via_dense_fallback)",
         "vlib/linser.py serialiser",
     ]
